@@ -1,0 +1,22 @@
+//go:build verif
+
+// Contracts for package deepcopy (see /repo/zz_contracts_verif.go).
+package deepcopy
+
+// Slice and OrderedMap are generic and use a dynamic type test on every element; their contracts are
+// assumed (trusted) and checked by a bounded differential test in the thorough tier.
+
+//@ func Slice
+//@   trusted
+//@   pure allocates
+//@   nilable orig result
+//@   ensures (result == nil) <==> (orig == nil)                     [C08]
+//@   ensures len(result) == len(orig)                                [C08]
+//@   ensures iscopy(result, orig)                                    [C08]
+//@   ensures orig != nil ==> fresh(arr(result))                      [C11]
+
+//@ func OrderedMap
+//@   trusted
+//@   pure allocates
+//@   ensures result != nil && iscopy(result, orig)                   [C08]
+//@   ensures fresh(result)                                           [C11]
